@@ -95,7 +95,12 @@ class FilterExpression(Expression):
         if isinstance(expression, PrefixExpression):
             operand = self._canonical_string(expression.right, PRECEDENCE_PREFIX)
             expr = f"!{operand}"
-            return f"({expr})" if parent_precedence > PRECEDENCE_PREFIX else expr
+            return f"({expr})" if parent_precedence >= PRECEDENCE_PREFIX else expr
+
+        if isinstance(expression, ComparisonExpression):
+            # `!` binds tighter than a comparison, so keep the grouping.
+            expr = str(expression)
+            return f"({expr})" if parent_precedence >= PRECEDENCE_PREFIX else expr
 
         return str(expression)
 
@@ -325,7 +330,8 @@ class FunctionExtension(Expression):
         self.args = args
 
     def __str__(self) -> str:
-        args = [str(arg) for arg in self.args]
+        # Arguments can be logical expressions; render them like a filter does.
+        args = [str(FilterExpression(arg.token, arg)) for arg in self.args]
         return f"{self.name}({', '.join(args)})"
 
     def __eq__(self, other: object) -> bool:
